@@ -249,6 +249,25 @@ def fit_tilt_rule(chk, repo, clause):
                     detr = f'the fitted Tilt goes to {fmt(owner)[:40]}.tilt at {w.loc()} while {fmt(p.ret)[:40]} is the plane that is returned'
         chk.ob(clause, 'D-index', f.key, f'the removed tip/tilt is recorded on the plane that is returned [{label}]', okr,
                detr if okr is not True else f'{nr} recording(s)', f.loc())
+    # ... after the ramp has left the OPD: the subtraction can fail (a read-only or integer OPD array), and a Tilt booked
+    # before it stays on the plane next to the unchanged OPD
+    _, po, _ = analyse(repo, f, config={'inplace': TRUE})
+    oko, deto, no_ = None, 'undecided: OPD update / tilt recording not found', 0
+    for p in returns(po):
+        evs = p.events
+        rec = [i for i, w in enumerate(evs) if w.kind == 'write' and w.data.get('how') in ('method:append', 'method:extend')
+               and isinstance(w.target, Poly) and w.target.single_atom() is not None and w.target.single_atom()[0] == 'attr'
+               and w.target.single_atom()[2] == 'tilt' and w.depth == 0]
+        upd = [i for i, w in enumerate(evs) if w.kind == 'write' and w.depth == 0 and
+               (w.data.get('attr') in ('opd', '_opd') or w.data.get('via_attr') in ('opd', '_opd'))]
+        if not rec or not upd:
+            continue
+        no_ += 1
+        if min(rec) < max(upd):
+            oko, deto = False, f'the Tilt is appended at {evs[min(rec)].loc()} before the OPD is updated at {evs[max(upd)].loc()}'
+        elif oko is None:
+            oko, deto = True, ''
+    chk.ob(clause, 'D-order', f.key, 'the removed tip/tilt is recorded after the OPD has been updated', oko, deto or f'{no_} path(s)', f.loc())
     if n < 2:
         raise AnalysisError(f'fit_tilt: only {n} of 2 branches recognised')
 
